@@ -37,7 +37,10 @@ def run(tier):
     c = vf.Check("C04", tier)
     quick = tier == "quick"
     vf.build_lib("plain")
-    models = docgen.generate(c, ["struct", "labels", "system", "mixed"], 1600 if quick else 16000, c.seed, bfs_budget=2 if quick else 3)
+    # Mirror.tla = DocGen x XmlReaderOps x Builder: MirrorDesign (the transcribed reader feeding the transcribed builder yields Expected(M)'s template
+    # graphs) is an invariant of the same TLC runs that generate the models
+    models = docgen.generate(c, ["struct", "labels", "system", "mixed"], 1600 if quick else 16000, c.seed, bfs_budget=2 if quick else 3, module="Mirror",
+                             invariants=("WellFormed", "MirrorDesign", "EmitDone"))
     if len(models) < 200:
         raise vf.MachineryError("DocGen produced only %d models" % len(models))
     jobs, texts = [], {}
